@@ -2,6 +2,7 @@ import CwPlus.Driver.Common
 import CwPlus.Driver.Cw20
 import CwPlus.Model.Ics20
 import CwPlus.Model.Ics20Wire
+import CwPlus.Model.MsgWire
 /-!
 Scenario `ics20`: op-line parser, observation renderer and property monitors
 (C11, C12, C18) for the cw20-ics20 model (app mode: contract + bank + two cw20 tokens).
@@ -130,7 +131,9 @@ def renderOutcome (o : Outcome) : Args :=
    ("sent", if o.sent.isEmpty then "-" else ";".intercalate (o.sent.map renderSend)),
    ("sub", match o.sub with | some s => renderSub s | none => "-"),
    -- the bytes of every emitted packet
-   ("pkt", if o.sent.isEmpty then "-" else ";".intercalate (o.sent.map fun x => Json.toHex (Ics20Wire.packetData x.packet)))] ++
+   ("pkt", if o.sent.isEmpty then "-" else ";".intercalate (o.sent.map fun x => Json.toHex (Ics20Wire.packetData x.packet))),
+   -- the bytes of the `Cw20ExecuteMsg::Transfer` of a cw20 payout / refund sub-message (`send_amount`)
+   ("subraw", MsgWire.subRawOfIcs20 o.sub)] ++
   -- the acknowledgement bytes (an error acknowledgement's text is not modelled: not rendered, see `C12/ack-wire-format`)
   (match o.ack with
    | none => [("ackraw", "-")]
